@@ -87,6 +87,8 @@ func (o Op) Logs() []*raft.Log {
 // Config is a WAL configuration under test.
 type Config struct {
 	SegSize int `json:"seg_size"`
+	// EagerEOF: the file system reports io.EOF together with a full read that ends at the end of the file
+	EagerEOF bool `json:"eager_eof,omitempty"`
 }
 
 // Sys is one WAL instance, on a simulated disk (Disk != nil) or on the real
@@ -186,6 +188,7 @@ var mountSeq int
 func Mount(st *simdisk.State, cfg Config) *Sys {
 	mountSeq++
 	d := simdisk.NewDisk(fmt.Sprintf("m%d", mountSeq), st)
+	d.EagerEOF = cfg.EagerEOF
 	dir := simdisk.Register(d)
 	return &Sys{Disk: d, Dir: dir, Cfg: cfg}
 }
